@@ -5,6 +5,7 @@ threshold = number of signers (must succeed); negatives: another key, single-bit
 changes, same RSA key material declared under the other PSS scheme (must all fail).
 """
 import copy
+import collections
 import json
 
 import common
@@ -147,8 +148,37 @@ def shard(binpath, seed, sh, ndocs, rsa_share):
     return res
 
 
+def ecdsa_volume(binpath, res, n):
+    """ECDSA signatures are randomised and their DER encoding varies in length (a leading zero byte less in r or s every
+    ~128th time): enough of them that every length the signer produces is met on every run"""
+    import scen
+    W = scen.World(binpath)
+    reqs = []
+    for i in range(n):
+        doc = scen.mk_link(f"ec{i}", {"a": scen.digest(i % 250)}, {}, ["c"], {"return-value": 0})
+        reqs.append((doc, [["ec-a", "ec-b", "ec-c"][i % 3]], "new"))
+    wires = scen.sign_all(binpath, reqs)
+    cases = [{"op": "block", "text": json.dumps(w), "threshold": 1, "auth": [W.pub(r[1][0])], "meta": {"signer": r[1][0]}} for w, r in zip(wires, reqs)]
+    obs = common.run_sharded(binpath, cases)
+    lens = collections.Counter()
+    for c, o in zip(cases, obs):
+        if "verify" not in o:
+            res.inconclusive.append(f"executor failure: {str(o)[:200]}")
+            continue
+        sig = json.loads(c["text"])["signatures"][0]["sig"]
+        lens[len(sig) // 2] += 1
+        if o["verify"] != "ok":
+            res.violate("roundtrip-verify-fails:ecdsa_volume", f"a link signed by {c['meta']['signer']} (ECDSA, signature of {len(sig) // 2} bytes) does not verify "
+                        f"after the wire round trip: {o['verify']}", c, o, "ok")
+        res.note([c["text"]], True, cls=["ecdsa_volume", "positive_verified"] if o["verify"] == "ok" else ["ecdsa_volume"])
+    res.extras["ecdsa_signature_lengths_seen"] = {str(k): v for k, v in sorted(lens.items())}
+    if len(lens) < 3:
+        res.inconclusive.append(f"only {len(lens)} distinct ECDSA signature lengths among {n} signatures")
+
+
 def main(ctx):
     res = common.Result()
+    ecdsa_volume(ctx.bin, res, 6000 if not ctx.thorough else 40000)
     n = 150 if not ctx.thorough else 4000
     for p in common.pmap(shard, [(ctx.bin, ctx.seed, s, n, 0.15) for s in range(common.NPROC)]):
         res.merge(p)
